@@ -35,13 +35,69 @@ SCHEMAS = {
                      pageSize=3, uniq=1, autoSelect=1),
     "vs_initials": dict(procs=["speller", "selector", "navigator", "fluid_editor"], alphabet="abcd", initials="abc", finals="d",
                         delimiters=" '", pageSize=4, uniq=0, useSpace=1, maxCodeLength=3, autoClear="manual"),
+    # the punctuator inside the model (processor + punct_segmentor + punct_translator): every kind of definition — a scalar
+    # (confirmed at once), {commit: x}, lists (3, 4 and 6 alternatives: 6 = a whole number of pages for both page sizes; one
+    # list with a repeated text, which the uniquifier of vs_punct removes), pairs (two of them: `oddness_` is per definition;
+    # one is the speller's delimiter), a key whose text is ASCII (half-shape label), space (full shape only / both);
+    # full_shape differs from half_shape in kind, length and texts so that the option shows in every observation
+    "vs_punct": dict(procs=["speller", "punctuator", "selector", "navigator", "express_editor"], alphabet="abc", delimiters="'",
+                     pageSize=3, uniq=1, punct=dict(
+                         use_space=0,
+                         half={",": "，", ".": {"commit": "。"}, "/": ["、", "／", "/", "÷"], '"': {"pair": ["“", "”"]},
+                               ";": ["；", ";", "︔", "﹔", "⁏", "؛"], "'": {"pair": ["‘", "’"]}, "$": ["￥", "$", "€"],
+                               "-": ["－", "-", "－"], "!": "!"},
+                         full={",": "，", ".": {"commit": "．"}, "/": ["／", "÷"], '"': {"pair": ["＂", "“"]}, ";": "；",
+                               " ": {"commit": "　"}, "$": ["＄", "￥", "$"], "-": {"commit": "－"}})),
+    "vs_punctf": dict(procs=["speller", "punctuator", "selector", "navigator", "fluid_editor"], alphabet="abc", delimiters="'",
+                      pageSize=2, uniq=0, punct=dict(
+                          use_space=1,
+                          half={",": "，", ".": {"commit": "。"}, "/": ["、", "／", "/", "÷"], '"': {"pair": ["“", "”"]},
+                                ";": ["；", ";", "︔", "﹔", "⁏", "؛"], "'": {"pair": ["‘", "’"]}, "$": ["￥", "$", "€"],
+                                "-": ["－", "-", "－"], "!": "!", " ": ["　", " "]},
+                          full={",": "，", ".": {"commit": "．"}, "/": ["／", "÷"], '"': {"pair": ["＂", "“"]}, ";": "；",
+                                " ": {"commit": "　"}, "$": ["＄", "￥", "$"], "-": {"commit": "－"}})),
 }
+
+
+def _yq(t):
+    return "'" + t.replace("'", "''") + "'"
+
+
+def _punct_yaml_value(d):
+    if isinstance(d, str):
+        return _yq(d)
+    if isinstance(d, list):
+        return "[" + ", ".join(_yq(t) for t in d) + "]"
+    if "commit" in d:
+        return "{commit: %s}" % _yq(d["commit"])
+    return "{pair: [%s, %s]}" % (_yq(d["pair"][0]), _yq(d["pair"][1]))
+
+
+def _punct_env_map(m):
+    """<key byte>:<kind>:<hex text>,<hex text>…;…   kinds: u scalar, l list, c {commit}, p {pair}"""
+    ents = []
+    for k in sorted(m):
+        d = m[k]
+        if isinstance(d, str):
+            kind, ts = "u", [d]
+        elif isinstance(d, list):
+            kind, ts = "l", d
+        elif "commit" in d:
+            kind, ts = "c", [d["commit"]]
+        else:
+            kind, ts = "p", d["pair"]
+        ents.append("%s:%s:%s" % (hx(k), kind, ",".join(hx(t) for t in ts) if ts else "-"))
+    return ";".join(ents) if ents else "-"
 
 
 def schema_yaml(sid, s):
     y = ["schema:", "  schema_id: %s" % sid, "  name: %s" % sid, "  version: '1'", "engine:", "  processors:"]
     y += ["    - %s" % p for p in s["procs"]]
-    y += ["  segmentors:", "    - abc_segmentor", "    - fallback_segmentor", "  translators:", "    - vt_translator"]
+    if s.get("punct"):
+        y += ["  segmentors:", "    - abc_segmentor", "    - punct_segmentor", "    - fallback_segmentor", "  translators:",
+              "    - punct_translator", "    - vt_translator"]
+    else:
+        y += ["  segmentors:", "    - abc_segmentor", "    - fallback_segmentor", "  translators:", "    - vt_translator"]
     if s.get("uniq"):
         y += ["  filters:", "    - uniquifier"]
     y += ["speller:", "  alphabet: '%s'" % s["alphabet"]]
@@ -63,11 +119,31 @@ def schema_yaml(sid, s):
         y += ['  alternative_select_keys: "%s"' % s["selectKeys"]]
     if s.get("pageDownCycle"):
         y += ["  page_down_cycle: true"]
+    if s.get("punct"):
+        P = s["punct"]
+        # digit separators off: that path reads the commit history, which the model does not have
+        y += ["punctuator:", '  digit_separators: ""']
+        if P.get("use_space"):
+            y += ["  use_space: true"]
+        for shape in ("half", "full"):
+            y += ["  %s_shape:" % shape] + ["    %s: %s" % (_yq(k), _punct_yaml_value(d)) for k, d in P[shape].items()]
     return "\n".join(y) + "\n"
 
 
 def env_line(sid, s):
     procs = ",".join(s["procs"])
+    return _env_line(sid, s, procs) + _punct_env(s)
+
+
+def _punct_env(s):
+    P = s.get("punct")
+    if not P:
+        return ""
+    return " punctHalf=%s punctFull=%s punctUseSpace=%d punctDigitSep=-" % (
+        _punct_env_map(P["half"]), _punct_env_map(P["full"]), P.get("use_space", 0))
+
+
+def _env_line(sid, s, procs):
     return ("env %s pageSize=%d selectKeys=%s pageDownCycle=%d alphabet=%s initials=%s finals=%s delimiters=%s "
             "maxCodeLength=%d autoSelect=%d useSpace=%d autoClear=%s procs=%s uniq=%d" % (
                 sid, s["pageSize"], hx(s.get("selectKeys", "")), s.get("pageDownCycle", 0), hx(s["alphabet"]),
@@ -148,6 +224,53 @@ def gen_burst(rng, s):
     return out
 
 
+def shape_format(b):
+    """ShapeFormatter::Format with full_shape on (gear/shape.cc): printable ASCII -> full-width forms, unless there is none"""
+    if all(ch < 0x20 or ch > 0x7e for ch in b):
+        return b
+    out = bytearray()
+    for ch in b:
+        if ch == 0x20:
+            out += b"\xe3\x80\x80"
+        elif 0x20 < ch <= 0x7e:
+            out += bytes([0xef, 0xbc + (ch - 0x20) // 0x40, 0x80 + (ch - 0x20) % 0x40])
+        else:
+            out.append(ch)
+    return bytes(out)
+
+
+def gen_punct_ops(rng, s):
+    """ops for a schema with a punctuator: one punctuation key pressed k times in a row (k up to 6: lists wrap around, pairs
+    alternate), alone or after letters, with a menu open, with the caret moved back, followed by the keys that confirm, select,
+    cancel or edit; the two options the punctuator reads; set_input of a text mixing letters and punctuation"""
+    P = s["punct"]
+    alpha = s["alphabet"]
+    keys = sorted(set(P["half"]) | set(P["full"]))
+    r = rng.random()
+    if r < 0.10:
+        return ["option %s %d" % (rng.choice(["ascii_punct", "full_shape", "full_shape"]), rng.randrange(2))]
+    if r < 0.16:
+        w = "".join(rng.choice(alpha + "".join(keys)) for _ in range(rng.choice([1, 2, 3, 4, 6])))
+        return ["input %s" % hx(w)]
+    out = []
+    if r < 0.40:
+        out += ["key %d 0" % ord(rng.choice(alpha)) for _ in range(rng.choice([1, 2, 3]))]
+        if r < 0.22:
+            out.append(rng.choice(["key %d 0" % XK["Left"], "caret 0", "caret 1", "key %d 0" % XK["Home"]]))
+    ch = rng.choice(keys)
+    k = rng.choice([1, 1, 1, 2, 2, 3, 3, 4, 5, 6])
+    mod = rng.choice([0] * 9 + [SHIFT, LOCK, CONTROL])
+    out += ["key %d %d" % (ord(ch), mod)] * k
+    follow = [[], [], [], ["key %d 0" % XK["space"]], ["key %d 0" % XK["space"]], ["key %d 0" % ord(rng.choice(alpha))],
+              ["key %d 0" % XK["BackSpace"]], ["key %d 0" % XK["Escape"]], ["key %d 0" % ord(rng.choice("123"))],
+              ["key %d 0" % XK["Return"]], ["read_commit"], ["key %d 0" % ord(rng.choice(keys))],
+              ["select_page %d" % rng.randrange(3)], ["select %d" % rng.choice([0, 1, 2, 4, 5])], ["key %d 0" % XK["Left"]],
+              ["key %d 0" % XK["Down"]], ["key %d 0" % XK["Next"], "key %d 0" % ord(ch)], ["page +"], ["highlight %d" % rng.randrange(6)],
+              ["key %d 0" % XK["BackSpace"], "key %d 0" % ord(ch)], ["commit"], ["key %d 0" % ord(rng.choice(alpha)), "key %d 0" % ord(ch)]]
+    out += rng.choice(follow)
+    return out
+
+
 def gen_history(rng, sid, s, n, profile="mixed"):
     """one session history on schema sid; profile selects the op mix."""
     alpha = s["alphabet"]
@@ -155,7 +278,11 @@ def gen_history(rng, sid, s, n, profile="mixed"):
     sel = s.get("selectKeys", "")
     ops = []
     edit_keys = [XK["BackSpace"], XK["Delete"], XK["KP_Left"], XK["KP_Right"], XK["Right"], XK["Home"], XK["End"], XK["Escape"]]
+    punct = s.get("punct")
     for _ in range(n):
+        if punct and profile != "edit" and rng.random() < 0.30:
+            ops += gen_punct_ops(rng, s)
+            continue
         r = rng.random()
         if profile == "edit":   # C05 alphabet only
             if r < 0.5:
@@ -412,6 +539,30 @@ def op_kind(op):
     return w[0]
 
 
+def punct_stats(ps, st, s, op, o):
+    """evidence only: what the runs on a schema with a punctuator exercised"""
+    w = op.split(" ")
+    kd = op_kind(op)
+    if w[0] == "key" and 0x20 <= int(w[1]) < 0x7f:
+        ch = chr(int(w[1]))
+        P = s["punct"]
+        cls = ("punct" if ch in P["half"] or ch in P["full"] else "letter" if ch in s["alphabet"] else "digit" if ch.isdigit() else "other")
+        kd = "key:%s%s" % (cls, "" if w[2] == "0" else "+mod")
+    elif w[0] == "option":
+        kd = "option:" + w[1]
+        st[w[1]] = w[2] != "0"
+    ps["op_kinds"][kd] = ps["op_kinds"].get(kd, 0) + 1
+    ps["obs_full_shape_on"] += bool(st.get("full_shape"))
+    ps["obs_ascii_punct_on"] += bool(st.get("ascii_punct"))
+    sg = o.get("segs", "")
+    segs = [] if ":" not in sg or sg.endswith(":-") else [g.split("-") for g in sg.split(":", 1)[1].split("|")]
+    pu = [g for g in segs if len(g) >= 6 and "u" in g[5]]
+    ps["obs_with_punct_segment"] += bool(pu)
+    ps["obs_punct_alternative_highlighted"] += any(g[4] != "0" for g in pu)
+    ps["obs_punct_and_letters"] += bool(pu) and any(len(g) >= 6 and "a" in g[5] for g in segs)
+    ps["deliveries"] += "text" in o
+
+
 def eval_history(c, exe, ws, rows, sid, ops, monitor, tag="h"):
     """run one history on both sides; returns dict(rc, impl, model, first_diff, first_viol)"""
     script, index = make_script(rows, [(sid, ops)])
@@ -435,7 +586,10 @@ def session_check(c, pid, monitor, histories, rows_for, exe, ws, what_prop, repo
     """histories: list of (sid, ops, table_id); rows_for[table_id] = rows.
     Runs them in batches per table, compares impl/model, monitors, shrinks, reports.  Returns stats."""
     stats = {"histories": 0, "ops": 0, "diffs": 0, "violations": 0, "crashes": 0, "kinds": {}, "nontrivial": set(),
-             "samples": [], "menus": 0, "composing": 0, "commits": 0, "multi_segment": 0}
+             "samples": [], "menus": 0, "composing": 0, "commits": 0, "multi_segment": 0, "schemas": {},
+             # schemas with a punctuator: finer op classes and what the observations show of the punctuation components
+             "punct": {"op_kinds": {}, "obs_with_punct_segment": 0, "obs_punct_alternative_highlighted": 0,
+                       "obs_punct_and_letters": 0, "obs_full_shape_on": 0, "obs_ascii_punct_on": 0, "deliveries": 0}}
     by_table = {}
     for sid, ops, tid in histories:
         by_table.setdefault(tid, []).append((sid, ops))
@@ -457,6 +611,13 @@ def session_check(c, pid, monitor, histories, rows_for, exe, ws, what_prop, repo
                     stats["ops"] += 1
                     k = op_kind(op)
                     stats["kinds"][k] = stats["kinds"].get(k, 0) + 1
+                    sid_h = pending[h][0]
+                    ss = stats["schemas"].setdefault(sid_h, {"ops": 0, "composing": 0, "menus": 0})
+                    ss["ops"] += 1
+                    ss["composing"] += o.get("composing") == "1"
+                    ss["menus"] += o.get("menu") not in (None, "~")
+                    if SCHEMAS.get(sid_h, {}).get("punct"):
+                        punct_stats(stats["punct"], states.setdefault(("p", h), {}), SCHEMAS[sid_h], op, o)
                     if o.get("menu") not in (None, "~"):
                         stats["menus"] += 1
                     if o.get("composing") == "1":
@@ -744,6 +905,41 @@ def earlier_match_grid(rows_for, hs, schemas=("vs_auto", "vs_autof")):
                     hs.append((sid, ["key %d 0" % ord(ch) for ch in w] + ["key %d 0" % XK["space"], "read_commit"], tid))
 
 
+def punct_grid(rows_for, hs):
+    """directed: on each schema with a punctuator, in each shape, every punctuation key pressed 1..n+2 times in a row (n = the
+    number of alternatives: a list wraps around, a pair alternates, a scalar / {commit} is delivered each time) — alone, after a
+    letter (the punctuation segment follows an abc segment), and with a Page_Down between the presses (the index the next press
+    starts from is on another page); then a pair interleaved with the other pair and with a shape switch (oddness is per
+    definition); then the key with ascii_punct on.  Ends with space + read so that whatever is pending is delivered."""
+    rows = [("a", "啊", "", ""), ("a", "阿", "c", ""), ("ab", "阿爸", "", ""), ("b", "吧", "", "")]
+    for sid, s in SCHEMAS.items():
+        P = s.get("punct")
+        if not P:
+            continue
+        tid = "pg_" + sid
+        rows_for[tid] = rows
+        end = ["key %d 0" % XK["space"], "key %d 0" % XK["Return"], "read_commit"]
+        for shape in ("half", "full"):
+            pre = ["option full_shape 1"] if shape == "full" else []
+            for ch, d in P[shape].items():
+                n = len(d) if isinstance(d, list) else 2 if isinstance(d, dict) and "pair" in d else 1
+                key = "key %d 0" % ord(ch)
+                hs.append((sid, pre + [key] * (n + 2) + end, tid))
+                hs.append((sid, pre + ["key 97 0"] + [key] * (n + 1) + end, tid))
+                if isinstance(d, list):
+                    hs.append((sid, pre + [key, "key %d 0" % XK["Next"], key, key, "key %d 0" % XK["Next"], key, "page +", key] + end, tid))
+                    hs.append((sid, pre + [key, key, "key 97 0", "key %d 0" % XK["BackSpace"], key, "key %d 0" % XK["Left"], key] + end, tid))
+            pairs = [ch for ch, d in P[shape].items() if isinstance(d, dict) and "pair" in d]
+            if pairs:
+                a, b = ord(pairs[0]), ord(pairs[-1])
+                hs.append((sid, pre + ["key %d 0" % a, "key %d 0" % b, "key %d 0" % a, "option full_shape %d" % (shape == "half"),
+                                       "key %d 0" % a, "key %d 0" % a, "option full_shape %d" % (shape == "full"), "key %d 0" % a,
+                                       "key %d 0" % b, "key 97 0", "key %d 0" % a] + end, tid))
+        for ch in P["half"]:
+            hs.append((sid, ["option ascii_punct 1", "key %d 0" % ord(ch), "key 97 0", "key %d 0" % ord(ch), "key %d 0" % ord(ch)] + end +
+                       ["option ascii_punct 0", "key %d 0" % ord(ch)] + end, tid))
+
+
 def standard_histories(c, n_hist, n_ops, profile="mixed", schemas=None):
     """corpus first, then directed boundary grids, then seeded generation; returns (histories, rows_for)"""
     rows_for, hs = {}, []
@@ -753,6 +949,7 @@ def standard_histories(c, n_hist, n_ops, profile="mixed", schemas=None):
     paging_grid(rows_for, hs)
     reopen_grid(rows_for, hs)
     earlier_match_grid(rows_for, hs)
+    punct_grid(rows_for, hs)
     schemas = schemas or list(SCHEMAS)
     for t in range(max(1, n_hist // 8)):
         for sid in schemas:
